@@ -333,7 +333,8 @@ func (stmt *Statement) BuildCondition(query interface{}, args ...interface{}) []
 				if where, ok := cs.Expression.(clause.Where); ok {
 					if len(where.Exprs) == 1 {
 						if orConds, ok := where.Exprs[0].(clause.OrConditions); ok {
-							where.Exprs[0] = clause.AndConditions(orConds)
+							// a new list: the sub-builder's own conditions are not to be rewritten
+							where.Exprs = []clause.Expression{clause.AndConditions(orConds)}
 						}
 					}
 					conds = append(conds, clause.And(where.Exprs...))
